@@ -322,4 +322,89 @@ theorem pinv_reachable {cfg : Cfg} {E : List Nat → Prop} {c : Nat} (hsep : cfg
     (h : Reachable cfg fs0 s) : PInv cfg E c s :=
   Sched.invariant_of_step (pinv_init cfg E c fs0 h0) (fun s l s' hi hs => pinv_step hsep hwf hev s s' l hi hs) s h
 
+/-! ### receiver steps: a composite execution has the receiver steps of its channel execution -/
+
+/-- The composite labels that are steps of the receiver: its channel steps and the conclusions of `on_batch`. -/
+def Label.isRx : Label → Bool
+  | .chan l => l.isRx
+  | .process _ _ => true
+
+theorem step_proj' (cfg : Cfg) (s s' : St) (l : Label) (h : step cfg s l = some s') :
+    (s'.crashed = true ∧ s'.ch = s.ch) ∨
+    (s'.crashed = false ∧ ∃ bl, Batcher.step cfg.ch s.ch bl = some s'.ch ∧ bl.isRx = Label.isRx l) := by
+  have hl := step_live h
+  clear h
+  obtain ⟨hlive, h⟩ := hl
+  cases l with
+  | chan bl =>
+    cases bl
+    case rxOutcome o => simp [stepLive] at h
+    case rxBegin =>
+      simp only [stepLive] at h
+      cases hb : Batcher.step cfg.ch s.ch .rxBegin with
+      | none => simp [hb] at h
+      | some ch' =>
+        simp only [hb] at h
+        split at h <;> (cases h; exact .inr ⟨hlive, _, hb, rfl⟩)
+    all_goals
+      simp only [stepLive, Option.map_eq_some_iff] at h
+      obtain ⟨ch', hc, rfl⟩ := h
+      exact .inr ⟨hlive, _, hc, rfl⟩
+  | process now id =>
+    simp only [stepLive] at h
+    split at h
+    · rename_i orig c ws b hrx hcur
+      cases hob : FileSet.onBatch cfg.file cfg.plan now id b s.fs with
+      | mk r fs' =>
+        simp only [hob] at h
+        cases r with
+        | ok =>
+          simp only [Option.map_eq_some_iff] at h
+          obtain ⟨ch', hc, rfl⟩ := h
+          exact .inr ⟨hlive, _, hc, rfl⟩
+        | retry b' =>
+          simp only [Option.map_eq_some_iff] at h
+          obtain ⟨ch', hc, rfl⟩ := h
+          refine .inr ⟨?_, .rxOutcome (.failRetry (remainder c b')), ?_, rfl⟩
+          · split <;> exact hlive
+          · rw [hc]; split <;> rfl
+        | noRetry =>
+          simp only [Option.map_eq_some_iff] at h
+          obtain ⟨ch', hc, rfl⟩ := h
+          exact .inr ⟨hlive, _, hc, rfl⟩
+        | crashed =>
+          simp only [Option.some.injEq] at h
+          subst h
+          exact .inl ⟨rfl, rfl⟩
+    · simp at h
+
+theorem run_of_crashed (cfg : Cfg) (s s' : St) (hc : s.crashed = true) (ls : List Label)
+    (h : Sched.run (step cfg) s ls = some s') : ls = [] ∧ s' = s := by
+  cases ls with
+  | nil => simp at h; exact ⟨rfl, h.symm⟩
+  | cons l ls => simp [Sched.run, step, hc] at h
+
+/-- A composite execution is an execution of the channel with the same receiver steps — up to the one crash step
+    that may end it. -/
+theorem run_proj (cfg : Cfg) : ∀ (ls : List Label) (s s' : St), Sched.run (step cfg) s ls = some s' →
+    ∃ bls, Sched.run (Batcher.step cfg.ch) s.ch bls = some s'.ch ∧
+      (s'.crashed = false → Sched.countSel Batcher.Label.isRx bls = Sched.countSel Label.isRx ls) := by
+  intro ls
+  induction ls with
+  | nil => intro s s' h; simp at h; subst h; exact ⟨[], rfl, fun _ => rfl⟩
+  | cons l ls ih =>
+    intro s s' h
+    simp only [Sched.run] at h
+    cases hs : step cfg s l with
+    | none => simp [hs] at h
+    | some s1 =>
+      simp only [hs] at h
+      rcases step_proj' cfg s s1 l hs with ⟨hcr, hch⟩ | ⟨hcr, bl, hbl, hrx⟩
+      · -- the crash ends the execution
+        obtain ⟨rfl, rfl⟩ := run_of_crashed cfg s1 s' hcr ls h
+        exact ⟨[], by simp [hch], fun hn => by rw [hcr] at hn; cases hn⟩
+      · obtain ⟨bls, hb, hc⟩ := ih s1 s' h
+        refine ⟨bl :: bls, by simp [Sched.run, hbl, hb], fun hn => ?_⟩
+        rw [Sched.countSel_cons, Sched.countSel_cons, hc hn, hrx]
+
 end EmitModel.FilePipe
